@@ -78,10 +78,12 @@ Modified(st, i) ==     \* [refuse, st']
 Ret(st, r) == [st EXCEPT !.ret = r]
 
 (* ec_edit *)
-Edit(st0, path, force) ==
+Edit(st0, path, force, ew) ==
     LET m  == IF ~force /\ ~st0.wa THEN Modified(st0, 1) ELSE [refuse |-> FALSE, st |-> st0]
-        st == m.st
-    IN IF m.refuse THEN Ret(st, 1)
+        (* :ew - "switch without changing #": when the target is open in the third slot or beyond, the alternate buffer
+           comes to the front first (after the check of the buffer that is being left) *)
+        st == IF ew /\ path # "" /\ FindPath(m.st, path) > 2 THEN Switch(m.st, 2) ELSE m.st
+    IN IF m.refuse THEN Ret(m.st, 1)
        ELSE IF path # "" /\ FindPath(st, path) > 0 THEN Ret(Switch(st, FindPath(st, path)), 0)     \* no re-read
        (* a full table reuses its last slot: refused without force if that buffer is modified *)
        ELSE IF path # "" /\ Len(st.tab) = st.nb /\ ~force /\ ~st.wa /\ Modified(st, st.nb).refuse
@@ -201,14 +203,14 @@ RunLine(st, cs) ==
                      [] c.k = "d" -> EdDelete(st)
                      [] c.k = "u" -> EdUndo(st)
                      [] c.k = "redo" -> EdRedo(st)
-                     [] c.k = "e" -> Edit(st, c.path, c.force)
+                     [] c.k = "e" -> Edit(st, c.path, c.force, "ew" \in DOMAIN c /\ c.ew)
                      [] c.k = "top" -> EdTop(st)
          IN RunLine(s1, Tail(cs))
 
 (* one prompt line: the command, then the command boundary on whatever buffer is current afterwards *)
 Step(st, c) ==
     LET s0 == [st EXCEPT !.msg = "", !.ret = 0]
-        s1 == CASE c.k = "e"     -> Edit(s0, c.path, c.force)
+        s1 == CASE c.k = "e"     -> Edit(s0, c.path, c.force, "ew" \in DOMAIN c /\ c.ew)
                 [] c.k = "w"     -> Write(s0, c.path, c.whole, c.beg, c.end, c.force, FALSE, c.fault)
                 [] c.k \in {"q", "wq", "x", "xa"} -> Quit(s0, c.k, c.force, c.fault)
                 [] c.k = "b"     -> Buffer(s0, c.how, c.n, c.force)
